@@ -18,7 +18,9 @@ RULE = (
     "kernels of 1-12 instructions (synthetic ISA databases / latency models and the curated vocabulary on shipped models) dense in "
     "register reuse so that self-loops, cycles sharing nodes, several cycles through one instruction, cycles through memory "
     "(store->load) and write-back registers occur, with and without flag dependencies, placed at file line offsets 0, 500, 998 and "
-    "5000 (files longer than 1000 lines are ordinary compiler output); enumeration is exhaustive at this size. Non-trivial: >= 2 "
+    "5000 (files longer than 1000 lines are ordinary compiler output); enumeration is exhaustive at this size; summary figure, "
+    "per-line dict values and the LCD column of the text report (zero-latency members show 0.0, non-members nothing) are compared "
+    "with the cycles. Non-trivial: >= 2 "
     "cycles or a cycle with >= 3 members; distinct by digest of (kernel text, flags, line offset)"
 )
 ASSUMPTIONS = [
